@@ -1,4 +1,4 @@
-import GomlVerif.Lemmas.GoCompHeap
+import GomlVerif.Lemmas.GoCompArr
 /-!
 Forward simulation `Sem` (ANF) ⟶ `Go.Sem` (output of `GoCompile`) for stage (a): statements of the
 induction (`SimAt n`, one field per mutually dependent statement, indexed by the `Sem` fuel) and the
@@ -26,6 +26,8 @@ structure Link (env : Env) (file : AFile) (G : List String) (P : Prog) (F : GFil
   refSrc : ∀ b, b ∈ refNames → P.findFn b = none
   refGo : ∀ e, refTyOK env file (.ref e) = true → RefLink F e
   tupGo : ∀ ts, tupleTyOK env file (.tuple ts) = true → TupLink F ts
+  arrSrc : ∀ b, b ∈ arrNames → P.findFn b = none
+  arrGo : ∀ len e, arrTyOK env file (.array len e) = true → ArrLink F len e
   ty : TyLink env F
 
 /-- where the value of an assigned expression goes -/
